@@ -538,12 +538,22 @@ def _countblank(ev, a, sh, at):
 
 
 def _truths(ev, a, sh, at):
+    """blank cells have no truth value and are passed over (directly named or inside an area); texts inside an area are ignored by
+    Excel and truthy for Python, so they are left unjudged, and so is a call in which nothing is left to judge (#VALUE! in Excel)"""
     out = []
     for x in a:
         v = ev.ev(x, sh, at)
-        if isinstance(v, Area):
-            raise NoOpinion('area argument of AND/OR')
-        out.append(truth(v))
+        items = v.flat() if isinstance(v, Area) else [v]
+        for i in items:
+            if isinstance(i, (list, Area)):
+                raise NoOpinion('a cell whose value is a list inside AND/OR')
+            if i is BLANK:
+                continue
+            if isinstance(v, Area) and isinstance(i, str):
+                raise NoOpinion('text inside an area argument of AND/OR')
+            out.append(truth(i))
+    if not out:
+        raise NoOpinion('AND/OR of nothing but blanks')
     return out
 
 
@@ -847,18 +857,18 @@ def match_pos(value, keys, mode, from_end=False, ev=None):
     if mode == 0:
         idx = range(len(keys) - 1, -1, -1) if from_end else range(len(keys))
         for i in idx:
+            if keys[i] is BLANK:
+                continue          # a blank key cell is no key: it is passed over by every lookup function (never the key 0 or "")
             if _keys_equal(keys[i], value):
                 return i + 1
-            if keys[i] is BLANK and (value == 0 or value == '') and not isinstance(value, bool) and ev is not None:
-                # "a blank cell equals 0 and the empty text" (C10) vs Excel's lookup, which skips blanks: statement silent
-                if ev.choose('blank_key_equals_zero'):
-                    return i + 1
         raise XlError('#N/A')
     if mode == 1:
         pos = None
-        for i, k in enumerate(keys):
+        last = max((i for i, k in enumerate(keys) if k is not BLANK), default=-1)
+        for i, k in enumerate(keys[:last + 1]):
             if k is BLANK:
-                raise NoOpinion('blank key in approximate match')
+                # below the data blank rows are passed over; a gap INSIDE an ascending key column has no defined place in the order
+                raise NoOpinion('blank key between the keys of an approximate match')
             le = _key_le(k, value)
             if le is None:
                 raise NoOpinion('mixed key kinds in approximate match')
@@ -873,11 +883,16 @@ def match_pos(value, keys, mode, from_end=False, ev=None):
 
 
 def _column_keys(v):
+    """the keys one below the other: a column, a single row searched along the row, a single cell"""
     if not isinstance(v, Area):
-        raise NoOpinion('lookup array is not an area')
-    if v.w != 1:
-        raise NoOpinion('horizontal / 2-d lookup vector')
-    return [row[0] for row in v.rows]
+        if isinstance(v, (list,)):
+            raise NoOpinion('lookup array is a list value')
+        return [v]
+    if v.w == 1:
+        return [row[0] for row in v.rows]
+    if v.h == 1:
+        return list(v.rows[0])
+    raise NoOpinion('2-d lookup vector')
 
 
 @fn('MATCH', 2, 3)
@@ -912,9 +927,16 @@ def _vlookup(ev, a, sh, at):
         if isinstance(flag, float):
             raise NoOpinion('range_lookup given as a float')
         approx = truth(flag)
-    pos = match_pos(value, [row[0] for row in table.rows], 1 if approx else 0, ev=ev)
-    if col < 1 or col > table.w:
-        raise XlError(None)
+    try:
+        pos = match_pos(value, [row[0] for row in table.rows], 1 if approx else 0, ev=ev)
+    except XlError:
+        if col < 1 or col > table.w:
+            raise XlError(None)       # nothing found AND no such column: some error value
+        raise
+    if col < 1:
+        raise XlError('#VALUE!')
+    if col > table.w:
+        raise XlError('#REF!')
     return table.rows[pos - 1][col - 1]
 
 
@@ -960,12 +982,42 @@ def _column(ev, a, sh, at):
     return a[0][3]
 
 
-@fn('ADDRESS', 2, 2)
+@fn('ADDRESS', 2, 5)
 def _address(ev, a, sh, at):
     r, c = _int_arg(ev, a[0], sh, at), _int_arg(ev, a[1], sh, at)
     if not (1 <= c <= 16384) or r < 1:
         raise NoOpinion('ADDRESS outside the sheet')
-    return f'${get_column_letter(c)}${r}'
+    kind = 1
+    if len(a) >= 3:
+        k = ev.arg_scalar(a[2], sh, at)
+        if k is BLANK:
+            kind = 1
+        elif isinstance(k, bool) or not is_num(k) or k != int(k) or not 1 <= int(k) <= 4:
+            raise NoOpinion('kind of reference outside 1..4')
+        else:
+            kind = int(k)
+    a1 = True
+    if len(a) >= 4:
+        f = ev.arg_scalar(a[3], sh, at)
+        if f is BLANK or isinstance(f, str):
+            raise NoOpinion('reference style given as blank / text')
+        a1 = truth(f)
+    letters = get_column_letter(c)
+    if a1:
+        out = {1: f'${letters}${r}', 2: f'{letters}${r}', 3: f'${letters}{r}', 4: f'{letters}{r}'}[kind]
+    else:
+        out = {1: f'R{r}C{c}', 2: f'R{r}C[{c}]', 3: f'R[{r}]C{c}', 4: f'R[{r}]C[{c}]'}[kind]
+    if len(a) == 5:
+        name = ev.arg_scalar(a[4], sh, at)
+        if not isinstance(name, str) or not name or "'" in name:
+            raise NoOpinion('sheet name argument that is not a plain text')
+        # Excel puts the name between apostrophes only where it has to; with them the reference means the same sheet
+        plain = re.fullmatch(r'[A-Za-z_][A-Za-z0-9_.]*', name) is not None and not re.fullmatch(r'[A-Za-z]{1,3}[0-9]+|[Rr][0-9]*[Cc][0-9]*', name)
+        if plain and not ev.choose('address_sheet_always_quoted'):
+            out = name + '!' + out
+        else:
+            out = "'" + name + "'!" + out
+    return out
 
 
 # ---- C12 -----------------------------------------------------------------------------------------
